@@ -747,19 +747,11 @@ func c10Classify(v any, stack []byte) *c10Panic {
 			break
 		}
 	}
-	third := p.Third
-	switch {
-	case strings.HasPrefix(third, "github.com/internetarchive/Zeno/"):
-		third = "self"
-	case strings.HasPrefix(third, "github.com/") && strings.Count(third, "/") >= 2:
-		third = strings.Split(third, "/")[2]
-	case strings.HasPrefix(third, "golang.org/x/"):
-		third = strings.TrimPrefix(third, "golang.org/")
-	}
+	third := c10ShortPkg(p.Third)
 	if p.Zeno == "" {
 		p.Zeno = "unknown"
 	}
-	p.Key = "C10-" + p.Zeno + "-" + strings.ReplaceAll(third, "/", ".")
+	p.Key = "C10-" + p.Zeno + "-" + third
 	return p
 }
 
@@ -880,11 +872,9 @@ func propC10(t veriflib.TB, c c10Case) {
 	t.Helper()
 	c = c10Materialise(c)
 	facet := "C10/" + c.Target
-	if veriflib.FindingOpen(c10KeyPDFPageTreeCycle) { // (the only fatal class so far; the scan is not free)
-		if key := c10FatalClass(c); key != "" {
-			veriflib.Excluded(facet, "input of open finding "+key+" (fatal error: excluded before execution)")
-			return
-		}
+	if key := c10FatalClass(c); key != "" {
+		veriflib.Excluded(facet, "input of open finding "+key+" (cannot be survived in-process: excluded before execution)")
+		return
 	}
 	var r c10Result
 	if c10FuzzMode() {
@@ -970,13 +960,27 @@ func c10HandleTimeout(t veriflib.TB, facet string, c c10Case, budget time.Durati
 	os.Exit(1)
 }
 
-// c10StuckFrames names the Zeno function (and what it called) the watchdogged goroutine is in.
+// c10ShortPkg: "github.com/pdfcpu/pdfcpu/pkg/x" -> "pdfcpu", "golang.org/x/net/html" -> "x.net.html", Zeno's own -> "self".
+func c10ShortPkg(pkg string) string {
+	switch {
+	case strings.HasPrefix(pkg, "github.com/internetarchive/Zeno/"):
+		return "self"
+	case strings.HasPrefix(pkg, "github.com/") && strings.Count(pkg, "/") >= 2:
+		return strings.Split(pkg, "/")[2]
+	case strings.HasPrefix(pkg, "golang.org/x/"):
+		pkg = strings.TrimPrefix(pkg, "golang.org/")
+	}
+	return strings.ReplaceAll(pkg, "/", ".")
+}
+
+// c10StuckFrames names where the watchdogged goroutine is: "<first Zeno function> -> <package it is spinning in>"
+// (stable across samples, used as the key) — the innermost frames are in the goroutine dump of the replay file.
 func c10StuckFrames(dump string) string {
 	for _, g := range strings.Split(dump, "\n\n") {
 		if !strings.Contains(g, "c10Guarded") || strings.Contains(g, "c10HandleTimeout") {
 			continue
 		}
-		var fns []string
+		third := ""
 		for _, l := range strings.Split(g, "\n")[1:] {
 			if l == "" || strings.HasPrefix(l, "\t") {
 				continue
@@ -984,23 +988,23 @@ func c10StuckFrames(dump string) string {
 			if m := c10FuncRe.FindStringSubmatch(l); m != nil {
 				l = m[1]
 			}
-			fns = append(fns, l)
-		}
-		inner := ""
-		for _, fn := range fns {
-			pkg, name := c10SplitFunc(fn)
-			if pkg == "runtime" || strings.HasPrefix(pkg, "runtime/") {
+			pkg, name := c10SplitFunc(l)
+			if pkg == "runtime" || strings.HasPrefix(pkg, "runtime/") || strings.HasPrefix(pkg, "internal/") {
 				continue
 			}
-			if inner == "" {
-				inner = fn
-			}
-			if strings.HasPrefix(pkg, "github.com/internetarchive/Zeno/") && !strings.Contains(name, "c10") {
+			zeno := strings.HasPrefix(pkg, "github.com/internetarchive/Zeno/") && !strings.Contains(name, "c10")
+			if zeno {
 				z := pkg[strings.LastIndexByte(pkg, '/')+1:] + "." + c10ClosureRe.ReplaceAllString(name, "")
-				if inner == fn {
+				if third == "" {
 					return z
 				}
-				return z + " -> " + inner
+				return z + " -> " + c10ShortPkg(third)
+			}
+			// prefer the first third-party (dotted import path) package over standard-library leaf frames
+			if third == "" || !strings.Contains(strings.SplitN(third, "/", 2)[0], ".") && strings.Contains(strings.SplitN(pkg, "/", 2)[0], ".") {
+				if !strings.Contains(name, "c10") {
+					third = pkg
+				}
 			}
 		}
 	}
